@@ -308,7 +308,7 @@ def _tok_flat(text):
         elif c.isdigit():
             m = _re.match(r'[0-9][0-9A-Za-z_.]*?(?=\.\.|[^0-9A-Za-z_]|$)', text[i:])
             lit = m.group(0)
-            out.append('(KLit %s)' % lit if lit.isdigit() else 'KBadLit')
+            out.append('(KLit %s)' % lit if lit.isdigit() and int(lit) <= 65535 else 'KBadLit')     # parse_literal_number refuses anything above u16::MAX
             i += len(lit)
         elif c.isalpha() or c == '_':
             m = _re.match(r'[A-Za-z_][A-Za-z0-9_]*', text[i:])
